@@ -28,7 +28,9 @@ RULE = ("history runs: sigma (registers, flags, internal memory, data, stacks) x
 SCHEDULE_MEASURE = "distinct (prefix program, scramble, sigma, focus) hashes"
 COMPONENTS = {
     "real": ["sc62015/pysc62015/emulator.py Emulator/Registers + cached_decoder.py + instr lifting",
-             "sc62015/core/src/llama/{eval,state}.rs LlamaExecutor/LlamaState", "PCE500Emulator.run/step, CoreRuntime::step(n)"],
+             "sc62015/core/src/llama/{eval,state}.rs LlamaExecutor/LlamaState", "PCE500Emulator.run/step, CoreRuntime::step(n)",
+             "sc62015/core/src/device.rs DeviceModel::configure_runtime + sc62015/core/src/sio.rs SioStub (device-configured "
+             "Rust machine whose firmware reaches the ROM's serial routines)"],
     "stub": ["binja_test_mocks LLIL evaluator", "flat bus (see C06)"],
 }
 ASSUMPTIONS = ["TEMP registers, call-depth counters and perf counters themselves are not compared (they are the hidden state)"]
